@@ -5,6 +5,15 @@ NOTES = ("Machine-checked proof in Lean 4 about a hand-written model that mirror
          "implementation's traces. See DESIGN.md.")
 NOT_YET = {}
 TEXT = {
+ "C12": {
+  "level": "Theorems acts_wellFormed (for every call from every world and any server behaviour: no network callback while the state lock is held, no re-entry, the update lock is only "
+           "tried with the state lock free, everything released), acts_sectionsAtomic (the action after every acquisition is the release), progress (in the global transition system of any "
+           "number of threads, if a thread is unfinished some thread is enabled: no schedule deadlocks), busy_update_inert. The model's action trace of every call is compared, action by "
+           "action, with the trace logged by the lock hooks and network callbacks of the real library; the depth counter is read inside every network callback.",
+  "design_ref": "DESIGN.md section 3, C12",
+  "note": "partial: 'promptly' is runtime (a dedicated hung-download scenario checks that queries and a second update return while the download hangs); Mutex semantics trusted.",
+  "technique": "Lean 4 theorems over lock/network action traces + trace-level correspondence with the instrumented library",
+ },
  "C15": {
   "level": "Theorems (by `decide` over tables REGENERATED from /repo on every run by tools/extract_abi.py): status_discriminants/error_code/status_constants (documented codes in Rust, header, Dart), "
            "header_agrees_with_rust, dart_agrees_with_rust (every looked-up symbol exists with ABI-equal signature), structs_agree + layouts (equal field lists, hence equal layouts; concrete "
